@@ -32,6 +32,10 @@ CLAIMED = {
          "Decides the orderings and lock discipline on which the engine's completion-counting argument rests (child counted before NewChildMonitor returns; activate before queueing; observer before AddEvent; Wait on every path that returns a monitor; "
          "Finish exactly on the error-free path after ProcessEvent; errors attached before Finish; notification posted under the zero test taken after the decrement, inside the same critical section, and posted outside the lock; acyclic lock order). "
          "These hold for every interleaving because they are properties of every path; the check does not enumerate schedules and does not decide exactly-once notification for monitors reused by user code.", "3/C02"),
+ "C10": ("pairing / provenance / loop-shape rules on SSA (same-value sort-to-loop, control dependence of decrements and of the fail-first exit, provenance of the queued priority)",
+         "Structural necessary conditions decided on the engine's source: activation accounting balanced (activated=true only with the per-priority count, decrement only under IsActivated), the executed slice is the sorted SSA value and Less is 'Priority <' in index order, "
+         "tasks are queued with their own monitor's priority and the dequeue returns the heap's Pop, the rule loop leaves under failOnFirstError ∧ errors≠∅ after the action ran and its error was recorded. "
+         "The heap order of krotik/common and schedules are not explored.", "3/C10"),
 }
 
 NOT_YET = "check not built yet in this session (see DESIGN.md section 3 for the planned static rule)"
